@@ -4,6 +4,7 @@
 use crate::report::CaseCtx;
 
 pub mod common;
+pub mod c20;
 pub mod c15;
 pub mod c13;
 pub mod c17;
@@ -47,6 +48,7 @@ pub fn lookup(id: &str) -> Option<Monitor> {
         "C17" => c17::case,
         "C13" => c13::case,
         "C15" => c15::case,
+        "C20" => c20::case,
         _ => return None,
     })
 }
